@@ -3,6 +3,7 @@ package listusers
 import (
 	"context"
 	"sort"
+	"time"
 
 	openfgav1 "github.com/openfga/api/proto/openfga/v1"
 	"google.golang.org/protobuf/types/known/structpb"
@@ -155,7 +156,13 @@ func VerifE06ListUsers() {
 	ctx := typesystem.ContextWithTypesystem(context.Background(), ts)
 	// no deadline: on a deadline ListUsers answers with the users found so far (partial by design), and the
 	// abstract clock of the engine may jump past any deadline between two instructions
-	opts := []ListUsersQueryOption{WithListUsersDeadline(0)}
+	deadline := time.Duration(0)
+	if !vt.Symbolic() {
+		// native replay of a stall (deadlock under the engine): let the real deadline end it, the partial
+		// answer then fails the completeness assertions instead of hanging the test binary
+		deadline = 5 * time.Second
+	}
+	opts := []ListUsersQueryOption{WithListUsersDeadline(deadline)}
 	if b := vt.ParamInt("breadth", 0); b > 0 {
 		opts = append(opts, WithResolveNodeBreadthLimit(uint32(b)))
 	}
@@ -183,8 +190,13 @@ func VerifE06ListUsers() {
 	}
 	verr := ValidateListUsersRequest(ctx, req, ts)
 	vt.Assert(verr == nil, "listusers: a request over the model's own types and relations was refused by validation")
+	started := time.Now()
 	resp, lerr := q.ListUsers(ctx, req)
 	vt.Reach("listed")
+	if !vt.Symbolic() {
+		// the universe is tiny: a native run takes milliseconds unless the command stalls until its deadline
+		vt.Assert(time.Since(started) < 4*time.Second, "listusers: the request stalled until its deadline (deadlock without the deadline)")
+	}
 
 	if lerr != nil {
 		vt.Reach("error")
